@@ -141,7 +141,8 @@ CLAIMED["C05"] = {
     "text": "Verdict mapping proved on the real code: Err(Infeasible)/Err(Unbounded) of the MILP bridge are returned only when the library reports them for exactly this model; auto_solver answers without the solver only a model with no rows and no variables; "
             "one step of the tableau simplex reports Finished only without an improving column and Unbounded only with a genuine witness column (U14.step), pivots preserve the solution set (U14.pivot), and the selection rules behind the step (optimality test, entering column, ratio test) are proved for every tableau size (U14.ratio; the ratio test after the repair d8d6f69 of its tie-break drift). "
             "BOUNDED (labelled): the ratio test's executable postcondition on near-tie chains and pseudo-random tableaux; the tableau path against the microlp bridge on small LPs (U13.std), and the tableau path against Clarabel on about 900 continuous three-variable models (U04.sol): same verdict kind, optima within 1e-6 relative. "
-            "NOT decided deductively: that the simplex always reaches a verdict (termination), the two-phase start, Clarabel status mapping, agreement between solvers in general (bounded checks only).",
+            "The good_lp / Clarabel bridge maps the library's Infeasible / Unbounded errors to the dedicated kinds and nothing else to them (U05.glp, relative to the documented error type). "
+            "NOT decided deductively: that the simplex always reaches a verdict (termination), the drive-out of artificial variables in the two-phase start, what Clarabel reports for a model and the rest of the good_lp bridge, agreement between solvers in general (bounded checks only).",
     "note": _LIB + "A Kani harness re-checks find_h under CBMC's float model in the thorough tier (bounded, labelled).",
     "technique": "Verus contracts on extracted auto_solver / solve_milp_lp_problem_with / Tableau::step_inner / find_h / find_t / is_optimal; bounded differential searches on the real solvers",
     "design_ref": "DESIGN.md §5 C05",
